@@ -89,6 +89,22 @@ pub fn run(r: &mut Report) {
                match &res { Ok(v) => verdict(v), Err(p) => format!("panic: {}", p) }, matches!(&res, Ok(v) if v.is_ok() == expect));
     }
 
+    // the dedicated sub-directory is the ONLY place inner links are read from: when it is absent, a regular file or a dangling link,
+    // inner links lying in the parent directory (or anywhere else) do not count
+    for state in ["absent", "regular-file", "dangling-symlink", "empty-directory"] { for inner_elsewhere in ["parent-directory", "nowhere"] {
+        let d = tmpdir();
+        let sub = layout(vec![step("inner", 1, &[&kb], allow_all(), allow_all())], vec![], &[&kb], 30);
+        write_link(d.path(), "a", ka.key_id(), &signed_layout(&sub, &[&ka]));
+        let subdir = d.path().join(format!("a.{}", ka.key_id().prefix()));
+        match state { "regular-file" => std::fs::write(&subdir, b"x").unwrap(), "dangling-symlink" => std::os::unix::fs::symlink("does-not-exist", &subdir).unwrap(),
+            "empty-directory" => std::fs::create_dir_all(&subdir).unwrap(), _ => {} }
+        if inner_elsewhere == "parent-directory" { write_link(d.path(), "inner", kb.key_id(), &signed_link(&link("inner", &[], &[("z", 7)]), &[&kb])); }
+        let lay = signed_layout(&layout(vec![step("a", 1, &[&ka], allow_all(), allow_all())], vec![], &[&ka, &kc], 30), &[&owner]);
+        let res = no_panic(|| in_toto_verify(&lay, owner_keys(&[&owner]), d.path().to_str().unwrap(), None));
+        r.case("delegation-without-a-usable-sub-directory", json!({"dedicated_sub_directory": state, "inner_links_in": inner_elsewhere}), "Err",
+               match &res { Ok(v) => verdict(v), Err(p) => format!("panic: {}", p) }, matches!(&res, Ok(v) if v.is_err()));
+    } }
+
     // the dedicated sub-directory is named "<step name>.<key id prefix>" whatever the step name looks like
     for sname in ["package.rpm", "a.b.c", "with space", "\u{e9}tape", ".hidden", "trailing.", "a"] {
         for place in ["own-directory", "name-with-last-extension-replaced", "name-without-prefix", "prefix-only"] {
